@@ -11,12 +11,12 @@ open Fs Fs.Walk Fs.WalkSpec
 theorem checkFile_eq (o : Opts) (dir : WPath) (k : Name) : checkFile o dir k = fileSel o dir k := by
   unfold checkFile fileSel
   cases optAny o.exclude k <;> cases optAny o.excludeGlob (fileGlobPath dir k) <;>
-    cases optAll o.filter k <;> cases optAll o.filterGlob (fileGlobPath dir k) <;> rfl
+    cases optAll o.filter k <;> cases globFileOk o (fileGlobPath dir k) <;> rfl
 
 theorem checkOpenDir_eq (o : Opts) (dir : WPath) (k : Name) : checkOpenDir o dir k = dirSel o dir k := by
   unfold checkOpenDir dirSel
   cases optAny o.excludeDirs k <;> cases optAny o.excludeGlob (dirGlobPath dir k) <;>
-    cases optAll o.filterDirs k <;> cases optAll o.filterGlob (dirGlobPath dir k) <;> rfl
+    cases optAll o.filterDirs k <;> cases globDirOk o (dirGlobPath dir k) <;> rfl
 
 theorem checkScanDir_eq (o : Opts) (r : Int) : checkScanDir o r = depthOk o r := by
   unfold checkScanDir depthOk
@@ -600,12 +600,12 @@ theorem chain_maxDepth (o : Opts) (d0 : Nat) (n : Node) (m : Int)
 theorem selEnts_none (d0 : Nat) (dir : WPath) (es : Ents) : selEnts {} d0 dir es = allEnts dir es := by
   fun_induction allEnts dir es with
   | case1 dir => simp [selEnts]
-  | case2 dir k b es ih => simp [selEnts, fileSel, optAll, optAny, ih]
-  | case3 dir k sub es ih1 ih2 => simp [selEnts, dirSel, depthOk, optAll, optAny, ih1, ih2]
+  | case2 dir k b es ih => simp [selEnts, fileSel, optAll, optAny, globFileOk, ih]
+  | case3 dir k sub es ih1 ih2 => simp [selEnts, dirSel, depthOk, optAll, optAny, globDirOk, ih1, ih2]
 
 theorem chain_none (d0 : Nat) (n : Node) (dir rel : WPath) (hne : rel ≠ []) : chain {} d0 n dir rel = true := by
-  rw [chain_noprune {} d0 n (by intros; simp [dirSel, optAll, optAny]) (by intros; simp [depthOk]) dir rel hne]
-  simp [fileSel, optAll, optAny]
+  rw [chain_noprune {} d0 n (by intros; simp [dirSel, optAll, optAny, globDirOk]) (by intros; simp [depthOk]) dir rel hne]
+  simp [fileSel, optAll, optAny, globFileOk]
 
 /-! ### well-formedness is inherited; order of the post-order enumeration -/
 
@@ -1163,17 +1163,17 @@ theorem resources_eq_infoEvents (evs : List Event) :
 
 /-! ### `filter_glob`: pruning by prefix acceptance is sound when prefix acceptance is complete -/
 
-theorem chain_glob_complete (o : Opts) (pref exact : Str → Bool) (ho : o.filterGlob = some pref)
-    (hpc : PrefixComplete pref exact) (d0 : Nat) (b : Bytes) (dir a : WPath) (name : Name)
+theorem chain_glob_complete (o : Opts) (g : GlobFilter) (ho : o.filterGlob = some g)
+    (hpc : PrefixComplete g) (d0 : Nat) (b : Bytes) (dir a : WPath) (name : Name)
     (hother : chain { o with filterGlob := none } d0 (.file b) dir (a ++ [name]) = true)
-    (hex : exact (fileGlobPath (dir ++ a) name) = true) :
+    (hex : g.exact (fileGlobPath (dir ++ a) name) = true) :
     chain o d0 (.file b) dir (a ++ [name]) = true := by
   induction a generalizing dir with
   | nil =>
     simp only [List.nil_append, chain_single, Node.isDir, Bool.false_eq_true, if_false, List.append_nil] at hother hex ⊢
-    simp only [fileSel, optAll, Bool.and_true, Bool.and_eq_true] at hother
-    simp only [fileSel, ho, optAll, Bool.and_eq_true]
-    exact ⟨⟨⟨hother.1.1, hother.1.2⟩, hpc.1 _ hex⟩, hother.2⟩
+    simp only [fileSel, globFileOk, Bool.and_true, Bool.and_eq_true] at hother
+    simp only [fileSel, globFileOk, ho, Bool.and_eq_true]
+    exact ⟨⟨⟨hother.1.1, hother.1.2⟩, hex⟩, hother.2⟩
   | cons c cs ih =>
     cases hcs : cs ++ [name] with
     | nil => simp at hcs
@@ -1181,10 +1181,10 @@ theorem chain_glob_complete (o : Opts) (pref exact : Str → Bool) (ho : o.filte
       simp only [List.cons_append, hcs, chain_cons2, Bool.and_eq_true] at hother ⊢
       obtain ⟨⟨hd, hdep⟩, hrest⟩ := hother
       refine ⟨⟨?_, ?_⟩, ?_⟩
-      · simp only [dirSel, optAll, Bool.and_true, Bool.and_eq_true] at hd
-        simp only [dirSel, ho, optAll, Bool.and_eq_true]
+      · simp only [dirSel, globDirOk, Bool.and_true, Bool.and_eq_true] at hd
+        simp only [dirSel, globDirOk, ho, Bool.and_eq_true]
         refine ⟨⟨⟨hd.1.1, hd.1.2⟩, ?_⟩, hd.2⟩
-        exact hpc.2 dir c cs name hex
+        exact hpc dir c cs name hex
       · simpa [depthOk] using hdep
       · rw [← hcs]
         refine ih (dir ++ [c]) (by rw [hcs]; exact hrest) ?_
@@ -1301,6 +1301,91 @@ theorem get_count (p : List Name) (t n : Node) (h : Node.get p t = some n) : n.c
         have h1 := ih ch h
         have h2 := lookup_count c es ch hl
         simp only [Node.count]
+        omega
+
+/-! ### breadth order: top of the tree first -/
+
+/-- everything the breadth machine reports strictly extends the path of some queued directory -/
+theorem bfs_mem_extends (o : Opts) (d0 : Nat) (q : Queue) (x : WPath × Node)
+    (h : x ∈ resources (walkBreadth o d0 q)) : ∃ d ∈ q, d.1.length < x.1.length := by
+  have h1 : x ∈ selQueue o d0 q := (bfs_perm o d0 q).mem_iff.mp h
+  simp only [selQueue, List.mem_flatMap] at h1
+  obtain ⟨d, hd, hx⟩ := h1
+  have h2 : x ∈ allEnts d.1 d.2 := (selEnts_sublist o d0 d.1 d.2).subset hx
+  obtain ⟨k, rest, hp, _⟩ := allEnts_mem_prefix d.1 d.2 x.1 x.2 h2
+  exact ⟨d, hd, by rw [hp]; simp⟩
+
+/-- the FIFO invariant: queued directories are sorted by depth and span at most two levels -/
+def qInv : Queue → Prop
+  | [] => True
+  | (dir, _) :: q => (∀ x ∈ q, dir.length ≤ x.1.length ∧ x.1.length ≤ dir.length + 1) ∧ qInv q
+
+theorem qInv_const (L : Nat) (ps : Queue) (h : ∀ p ∈ ps, p.1.length = L) : qInv ps := by
+  induction ps with
+  | nil => trivial
+  | cons p ps ih =>
+    obtain ⟨d, es⟩ := p
+    have hd : d.length = L := h (d, es) (by simp)
+    refine ⟨?_, ih (fun p hp => h p (by simp [hp]))⟩
+    intro x hx
+    have := h x (by simp [hx])
+    omega
+
+theorem qInv_append (L : Nat) (q ps : Queue) (hq : qInv q)
+    (hb : ∀ x ∈ q, L ≤ x.1.length ∧ x.1.length ≤ L + 1) (hp : ∀ p ∈ ps, p.1.length = L + 1) :
+    qInv (q ++ ps) := by
+  induction q with
+  | nil => exact qInv_const (L + 1) ps hp
+  | cons x q ih =>
+    obtain ⟨d, es⟩ := x
+    have hd := hb (d, es) (by simp)
+    refine ⟨?_, ih hq.2 (fun x hx => hb x (by simp [hx]))⟩
+    intro y hy
+    have hy' : y ∈ q ++ ps := hy
+    rw [List.mem_append] at hy'
+    rcases hy' with hy | hy
+    · exact hq.1 y hy
+    · have := hp y hy
+      simp only at hd
+      omega
+
+theorem scanBreadth_res_len (o : Opts) (d0 : Nat) (dir : WPath) (es : Ents) :
+    ∀ x ∈ resources (scanBreadth o d0 dir es).1, x.1.length = dir.length + 1 := by
+  intro x hx
+  rw [resources_eq_infoEvents, List.mem_map] at hx
+  obtain ⟨e, he, rfl⟩ := hx
+  simp only [infoEvents, List.mem_filterMap, Option.map_eq_some_iff] at he
+  obtain ⟨ev, hev, i, _, rfl⟩ := he
+  have := scanBreadth_dir o d0 dir es ev hev
+  simp [this]
+
+/-- breadth order reports the resources by non-decreasing depth -/
+theorem bfs_sorted (o : Opts) (d0 : Nat) (q : Queue) (hq : qInv q) :
+    (resources (walkBreadth o d0 q)).Pairwise (fun x y => x.1.length ≤ y.1.length) := by
+  fun_induction walkBreadth o d0 q with
+  | case1 => simp
+  | case2 dir es q r ih =>
+    have hpush : ∀ p ∈ r.2, p.1.length = dir.length + 1 := by
+      intro p hp
+      obtain ⟨k, hk, _⟩ := scanBreadth_pushes o d0 dir es p hp
+      rw [hk]; simp
+    have hinv : qInv (q ++ r.2) := qInv_append dir.length q r.2 hq.2 hq.1 hpush
+    simp only [resources_append, resources_cons_none]
+    rw [List.pairwise_append]
+    refine ⟨?_, ih hinv, ?_⟩
+    · rw [List.pairwise_iff_forall_sublist]
+      intro a b hab
+      have ha := scanBreadth_res_len o d0 dir es a (hab.subset (by simp))
+      have hb := scanBreadth_res_len o d0 dir es b (hab.subset (by simp))
+      omega
+    · intro a ha b hb
+      have hla := scanBreadth_res_len o d0 dir es a ha
+      obtain ⟨d, hd, hlt⟩ := bfs_mem_extends o d0 (q ++ r.2) b hb
+      rw [List.mem_append] at hd
+      rcases hd with hd | hd
+      · have := (hq.1 d hd).1
+        omega
+      · have := hpush d hd
         omega
 
 end Fs.WalkLemmas
